@@ -71,10 +71,48 @@ func (c LitCase) effLogNthRoot() int {
 }
 
 func distOrNil(d h.DistSpec) ring.DistributionParameters {
-	if d.Kind == "" {
+	switch d.Kind {
+	case "":
 		return nil
+	case "ternaryPH": // both fields set (the doc of ring.Ternary allows only one)
+		return ring.Ternary{P: d.P, H: d.H}
+	case "uniform":
+		return ring.Uniform{}
 	}
 	return d.Lattigo()
+}
+
+// distViolations: values the documentation of ring.Ternary / ring.DiscreteGaussian excludes or that cannot be sampled.
+func distViolations(d h.DistSpec, n int, secret bool) (v []string) {
+	switch d.Kind {
+	case "ternaryH", "ternaryP", "ternaryPH":
+		if d.H < 0 {
+			v = append(v, "H<0")
+		}
+		if d.H > n {
+			v = append(v, "H>N")
+		}
+		if d.P < 0 {
+			v = append(v, "P<0")
+		}
+		if d.P > 1 {
+			v = append(v, "P>1")
+		}
+		if d.P != 0 && d.H != 0 {
+			v = append(v, "P-and-H")
+		}
+	case "gauss":
+		if d.Sigma < 0 {
+			v = append(v, "sigma<0")
+		}
+		if d.Bound < 0 {
+			v = append(v, "bound<0")
+		}
+		if math.IsInf(d.Sigma, 0) || math.IsInf(d.Bound, 0) {
+			v = append(v, "infinite")
+		}
+	}
+	return
 }
 
 // ---------------------------------------------------------------------------------------------------------------
@@ -201,6 +239,9 @@ func (c LitCase) violations() (v []string) {
 				add("logP-size-range")
 			}
 		}
+	}
+	if c.Xs.Kind == "uniform" || c.Xe.Kind == "uniform" {
+		add("distribution-type")
 	}
 	switch c.Scheme {
 	case "bgv":
@@ -416,6 +457,7 @@ func runLiteral(c LitCase, rec *h.Rec) error {
 		rec.Class("soft=" + s)
 	}
 
+	qSnap, pSnap := append([]uint64(nil), c.Q...), append([]uint64(nil), c.P...)
 	b, err, skipped := c.constructGuarded(rec)
 	if skipped {
 		if err != nil {
@@ -444,6 +486,9 @@ func runLiteral(c LitCase, rec *h.Rec) error {
 	}
 
 	rec.Class("outcome=accepted")
+	if b.bg != nil {
+		rec.Classf("t-slots=%d/N=%d", b.bg.MaxSlots(), b.bg.N())
+	}
 	if b.warn {
 		rec.Class("outcome=accepted-with-warning")
 	}
@@ -459,19 +504,62 @@ func runLiteral(c LitCase, rec *h.Rec) error {
 	}
 
 	p := b.rl
+	if c.LogN >= 0 && c.LogN < 40 {
+		dv := append(distViolations(c.Xs, 1<<uint(c.LogN), true), distViolations(c.Xe, 1<<uint(c.LogN), false)...)
+		if len(dv) > 0 {
+			// accepted although the distribution cannot be sampled as documented; the derived Hamming weight shows it
+			key := "C19:accepted-invalid-distribution"
+			msg := fmt.Sprintf("%s literal with Xs=%+v Xe=%+v (%v) accepted without error; XsHammingWeight() = %d for N = %d", c.Scheme, c.Xs, c.Xe, dv, p.XsHammingWeight(), p.N())
+			for _, d := range dv {
+				rec.Class("accepted-invalid-distribution=" + d)
+			}
+			if rec.Known(key, msg) {
+				rec.Class("known=" + key)
+				rec.NonTrivial(fmt.Sprintf("%s|accepted-invalid-distribution|%v", c.Scheme, dv))
+				return nil // no sampling on such parameters (samplers: C17)
+			}
+			return h.Failf(key, "%s", msg)
+		}
+	}
 	if e := structural(c, p, rec); e != nil {
 		return e
 	}
 	if e := accessors(c, b, rec); e != nil {
 		return e
 	}
-	if e := serial(c, b, rec); e != nil {
+	dec, e := serial(c, b, rec)
+	if e != nil {
 		return e
 	}
 	extreme := extremeClass(c, p)
 	if c.LogN <= 10 && !b.warn {
-		if e := smoke(c, b, soft, rec); e != nil {
+		// the object has a history: half of the cases run the battery on the parameters decoded from the binary form
+		// (second life of the literal), the others on the object the constructor returned - after it has been serialised
+		target := b
+		if c.Seed&1 == 1 && dec.rl.RingQ() != nil {
+			target = dec
+			rec.Class("smoke-on=decoded")
+		}
+		if e := smoke(c, target, soft, rec); e != nil {
 			return e
+		}
+		// the literal's slices are inputs: untouched by construction, encoding and use
+		for i := range qSnap {
+			if c.Q[i] != qSnap[i] {
+				return h.Failf("C19:"+c.Scheme+":literal-Q-modified", "the Q slice of the literal was modified: %v, was %v", c.Q, qSnap)
+			}
+		}
+		for i := range pSnap {
+			if c.P[i] != pSnap[i] {
+				return h.Failf("C19:"+c.Scheme+":literal-P-modified", "the P slice of the literal was modified: %v, was %v", c.P, pSnap)
+			}
+		}
+		// and the parameters do not alias what their accessors hand out
+		if q := p.Q(); len(q) > 0 {
+			q[0] ^= 1
+			if p.Q()[0] != q[0]^1 || p.RingQ().SubRings[0].Modulus != q[0]^1 {
+				return h.Failf("C19:"+c.Scheme+":accessor-aliases-state", "writing into the slice returned by Q() changed the parameters")
+			}
 		}
 	}
 	if extreme != "" || len(soft) > 0 {
@@ -778,63 +866,65 @@ func accessors(c LitCase, b built, rec *h.Rec) error {
 }
 
 // serial: Parameters survive JSON and binary encodings as Equal objects.
-func serial(c LitCase, b built, rec *h.Rec) error {
+func serial(c LitCase, b built, rec *h.Rec) (dec built, err error) {
 	pre := "C19:" + c.Scheme + ":serial:"
 	switch {
 	case b.bg != nil:
 		js, e := b.bg.MarshalJSON()
 		if e != nil {
-			return h.Failf(pre+"marshal-json-error", "%v", e)
+			return dec, h.Failf(pre+"marshal-json-error", "%v", e)
 		}
 		var q bgv.Parameters
 		if e := q.UnmarshalJSON(js); e != nil {
-			return h.Failf(pre+"unmarshal-json-error", "UnmarshalJSON(MarshalJSON(p)): %v; json=%s", e, js)
+			return dec, h.Failf(pre+"unmarshal-json-error", "UnmarshalJSON(MarshalJSON(p)): %v; json=%s", e, js)
 		}
 		if !b.bg.Equal(&q) || !q.Equal(b.bg) {
-			return h.Failf(pre+"json-not-equal", "UnmarshalJSON(MarshalJSON(p)) is not Equal to p; json=%s", js)
+			return dec, h.Failf(pre+"json-not-equal", "UnmarshalJSON(MarshalJSON(p)) is not Equal to p; json=%s", js)
 		}
 		bin, e := b.bg.MarshalBinary()
 		if e != nil {
-			return h.Failf(pre+"marshal-binary-error", "%v", e)
+			return dec, h.Failf(pre+"marshal-binary-error", "%v", e)
 		}
 		var r bgv.Parameters
 		if e := r.UnmarshalBinary(bin); e != nil {
-			return h.Failf(pre+"unmarshal-binary-error", "UnmarshalBinary(MarshalBinary(p)): %v", e)
+			return dec, h.Failf(pre+"unmarshal-binary-error", "UnmarshalBinary(MarshalBinary(p)): %v", e)
 		}
 		if !b.bg.Equal(&r) {
-			return h.Failf(pre+"binary-not-equal", "UnmarshalBinary(MarshalBinary(p)) is not Equal to p")
+			return dec, h.Failf(pre+"binary-not-equal", "UnmarshalBinary(MarshalBinary(p)) is not Equal to p")
 		}
+		dec = built{rl: r.Parameters, bg: &r}
 		if r.MaxSlots() != b.bg.MaxSlots() || r.RingQMul() == nil {
-			return h.Failf(pre+"binary-derived-state", "decoded parameters differ in derived state (MaxSlots %d vs %d)", r.MaxSlots(), b.bg.MaxSlots())
+			return dec, h.Failf(pre+"binary-derived-state", "decoded parameters differ in derived state (MaxSlots %d vs %d)", r.MaxSlots(), b.bg.MaxSlots())
 		}
 	case b.ck != nil:
 		js, e := b.ck.MarshalJSON()
 		if e != nil {
-			return h.Failf(pre+"marshal-json-error", "%v", e)
+			return dec, h.Failf(pre+"marshal-json-error", "%v", e)
 		}
 		var q ckks.Parameters
 		if e := q.UnmarshalJSON(js); e != nil {
-			return h.Failf(pre+"unmarshal-json-error", "UnmarshalJSON(MarshalJSON(p)): %v; json=%s", e, js)
+			return dec, h.Failf(pre+"unmarshal-json-error", "UnmarshalJSON(MarshalJSON(p)): %v; json=%s", e, js)
 		}
 		if !b.ck.Equal(&q) || !q.Equal(b.ck) {
-			return h.Failf(pre+"json-not-equal", "UnmarshalJSON(MarshalJSON(p)) is not Equal to p; json=%s", js)
+			return dec, h.Failf(pre+"json-not-equal", "UnmarshalJSON(MarshalJSON(p)) is not Equal to p; json=%s", js)
 		}
 		bin, e := b.ck.MarshalBinary()
 		if e != nil {
-			return h.Failf(pre+"marshal-binary-error", "%v", e)
+			return dec, h.Failf(pre+"marshal-binary-error", "%v", e)
 		}
 		var r ckks.Parameters
 		if e := r.UnmarshalBinary(bin); e != nil {
-			return h.Failf(pre+"unmarshal-binary-error", "UnmarshalBinary(MarshalBinary(p)): %v", e)
+			return dec, h.Failf(pre+"unmarshal-binary-error", "UnmarshalBinary(MarshalBinary(p)): %v", e)
 		}
 		if !b.ck.Equal(&r) {
-			return h.Failf(pre+"binary-not-equal", "UnmarshalBinary(MarshalBinary(p)) is not Equal to p")
+			return dec, h.Failf(pre+"binary-not-equal", "UnmarshalBinary(MarshalBinary(p)) is not Equal to p")
 		}
+		dec = built{rl: r.Parameters, ck: &r}
 	default:
 		p := b.rl
 		js, e := p.MarshalJSON()
 		if e != nil {
-			return h.Failf(pre+"marshal-json-error", "%v", e)
+			return dec, h.Failf(pre+"marshal-json-error", "%v", e)
 		}
 		var q rlwe.Parameters
 		e = q.UnmarshalJSON(js)
@@ -845,32 +935,33 @@ func serial(c LitCase, b built, rec *h.Rec) error {
 				msg := fmt.Sprintf("UnmarshalJSON(MarshalJSON(p)): %v; json=%s", e, js)
 				if rec.Known(key, msg) {
 					rec.Class("known=" + key)
-					return nil
+					return dec, nil
 				}
-				return h.Failf(key, "%s", msg)
+				return dec, h.Failf(key, "%s", msg)
 			}
-			return h.Failf(pre+"unmarshal-json-error", "UnmarshalJSON(MarshalJSON(p)): %v; json=%s", e, js)
+			return dec, h.Failf(pre+"unmarshal-json-error", "UnmarshalJSON(MarshalJSON(p)): %v; json=%s", e, js)
 		}
 		if !p.Equal(&q) || !q.Equal(&p) {
-			return h.Failf(pre+"json-not-equal", "UnmarshalJSON(MarshalJSON(p)) is not Equal to p; json=%s", js)
+			return dec, h.Failf(pre+"json-not-equal", "UnmarshalJSON(MarshalJSON(p)) is not Equal to p; json=%s", js)
 		}
 		bin, e := p.MarshalBinary()
 		if e != nil {
-			return h.Failf(pre+"marshal-binary-error", "%v", e)
+			return dec, h.Failf(pre+"marshal-binary-error", "%v", e)
 		}
 		if len(bin) != p.BinarySize() {
-			return h.Failf(pre+"binary-size", "MarshalBinary wrote %d bytes, BinarySize() = %d", len(bin), p.BinarySize())
+			return dec, h.Failf(pre+"binary-size", "MarshalBinary wrote %d bytes, BinarySize() = %d", len(bin), p.BinarySize())
 		}
 		var r rlwe.Parameters
 		e = r.UnmarshalBinary(bin)
 		if e != nil && !(b.warn && r.RingQ() != nil) {
-			return h.Failf(pre+"unmarshal-binary-error", "UnmarshalBinary(MarshalBinary(p)): %v", e)
+			return dec, h.Failf(pre+"unmarshal-binary-error", "UnmarshalBinary(MarshalBinary(p)): %v", e)
 		}
 		if !p.Equal(&r) {
-			return h.Failf(pre+"binary-not-equal", "UnmarshalBinary(MarshalBinary(p)) is not Equal to p")
+			return dec, h.Failf(pre+"binary-not-equal", "UnmarshalBinary(MarshalBinary(p)) is not Equal to p")
 		}
+		dec = built{rl: r, warn: b.warn}
 	}
-	return nil
+	return dec, nil
 }
 
 // smoke: the functional battery on an accepted context.
@@ -1131,6 +1222,10 @@ func genLiteral(t *rapid.T) LitCase {
 	}
 	if c.Scheme == "bgv" {
 		muts = append(muts, "t0", "t1", "tInQ", "tInP", "tAboveQ0", "tComposite", "tEven", "tBadResidue", "tCloseQ0", "tMultiple")
+		// every odd residue class of t modulo 2N (capped at 256): accepted with min(N, order/2) slots iff t = 1 mod 16
+		for i, k := 0, map[bool]int{false: 2, true: 8}[h.Thorough()]; i < k; i++ {
+			muts = append(muts, "tResidue")
+		}
 	}
 	if c.Scheme == "ckks" {
 		muts = append(muts, "scale129", "scaleNeg")
@@ -1138,6 +1233,7 @@ func genLiteral(t *rapid.T) LitCase {
 	if c.Scheme != "bgv" {
 		muts = append(muts, "sigma0")
 	}
+	muts = append(muts, "badDist", "badDist")
 	c.Mut = muts[rapid.IntRange(0, len(muts)-1).Draw(t, "mut")]
 	inQ := rapid.Bool().Draw(t, "mutInQ") || len(c.P) == 0
 	target := func() *uint64 {
@@ -1308,6 +1404,32 @@ func genLiteral(t *rapid.T) LitCase {
 		c.T = friendlyComposite(c.T, m)
 	case "tEven":
 		c.T = c.T + 1
+	case "tResidue":
+		mod := m
+		if mod > 256 {
+			mod = 256
+		}
+		r := uint64(rapid.IntRange(0, int(mod/2)-1).Draw(t, "tRes"))*2 + 1
+		q0b := 40
+		if !logMode {
+			q0b = bits.Len64(c.Q[0])
+		} else {
+			q0b = c.LogQ[0] - 1
+		}
+		tb := rapid.IntRange(5, 36).Draw(t, "tResBits")
+		if tb > q0b-2 {
+			tb = q0b - 2
+		}
+		if tb < 5 {
+			tb = 5
+		}
+		start := uint64(1) << uint(tb-1)
+		for x := start - start%mod + r; ; x += mod {
+			if x > 16 && h.IsPrime64(x) && !used[x] {
+				c.T = x
+				break
+			}
+		}
 	case "tBadResidue":
 		c.T = nonFriendlyPrime(c.T, 16)
 	case "tCloseQ0":
@@ -1328,6 +1450,36 @@ func genLiteral(t *rapid.T) LitCase {
 		c.LogScale = rapid.SampledFrom([]int{129, 200, 1 << 20}).Draw(t, "bigScale")
 	case "scaleNeg":
 		c.LogScale = rapid.SampledFrom([]int{-1, -20, 0, 128, 64, 65}).Draw(t, "oddScale")
+	case "badDist":
+		// never NaN (TernarySampler recurses until the stack overflows: the process dies) and never P = 1
+		n := 1
+		if c.LogN >= 0 && c.LogN < 30 {
+			n = 1 << uint(c.LogN)
+		}
+		switch rapid.IntRange(0, 10).Draw(t, "badDistK") {
+		case 0:
+			c.Xs = h.DistSpec{Kind: "ternaryH", H: n + rapid.IntRange(1, n).Draw(t, "hOver")}
+		case 1:
+			c.Xs = h.DistSpec{Kind: "ternaryH", H: -rapid.IntRange(1, 64).Draw(t, "hNeg")}
+		case 2:
+			c.Xs = h.DistSpec{Kind: "ternaryP", P: 1 + rapid.Float64Range(0.01, 3).Draw(t, "pOver")}
+		case 3:
+			c.Xs = h.DistSpec{Kind: "ternaryP", P: -rapid.Float64Range(0.01, 3).Draw(t, "pNeg")}
+		case 4:
+			c.Xs = h.DistSpec{Kind: "ternaryPH", P: 0.5, H: rapid.IntRange(1, n).Draw(t, "hBoth")}
+		case 5:
+			c.Xe = h.DistSpec{Kind: "gauss", Sigma: -3.2, Bound: 19.2}
+		case 6:
+			c.Xe = h.DistSpec{Kind: "gauss", Sigma: 3.2, Bound: -19.2}
+		case 7:
+			c.Xe = h.DistSpec{Kind: "ternaryH", H: n + 1}
+		case 8:
+			c.Xs = h.DistSpec{Kind: "uniform"}
+		case 9:
+			c.Xe = h.DistSpec{Kind: "uniform"}
+		default:
+			c.Xs = h.DistSpec{Kind: "gauss", Sigma: 3.2, Bound: -1}
+		}
 	case "sigma0":
 		c.Xe = h.DistSpec{Kind: "gauss", Sigma: 0, Bound: 0}
 	}
